@@ -105,7 +105,10 @@ type RPCSpec struct {
 	Creds         map[string]string `json:"creds,omitempty"`
 	Creds2        map[string]string `json:"creds2,omitempty"` // a second PerRPCCredentials option
 	NoOutgoingMD  bool              `json:"no_out_md,omitempty"`
-	CtxCause      bool              `json:"ctx_cause,omitempty"` // caller context created with WithCancelCause / WithTimeoutCause
+	// NeverCancel: the RPC is issued with a context that can never be cancelled
+	// (context.Background() plus values: Done() == nil), as plain client code often does.
+	NeverCancel bool `json:"never_cancel,omitempty"`
+	CtxCause    bool `json:"ctx_cause,omitempty"` // caller context created with WithCancelCause / WithTimeoutCause
 	// RawMethod, if set (use "<empty>" for the empty string), replaces the full method path.
 	RawMethod string `json:"raw_method,omitempty"`
 
@@ -684,6 +687,9 @@ func (e *Env) StartRPC(parent context.Context, ch grpc.ClientConnInterface, spec
 	e.mu.Unlock()
 	spec.ch = ch
 	ctx := parent
+	if spec.NeverCancel && spec.Timeout == 0 && !spec.CtxCause {
+		ctx = context.Background()
+	}
 	if !spec.NoOutgoingMD {
 		md := metadata.MD{}
 		for k, v := range spec.ReqMD {
@@ -710,6 +716,8 @@ func (e *Env) StartRPC(parent context.Context, ch grpc.ClientConnInterface, spec
 	case spec.CtxCause:
 		c2, cancelCause := context.WithCancelCause(ctx)
 		spec.ctx, spec.cancel = c2, func() { cancelCause(errors.New("caller lost interest (custom cause)")) }
+	case spec.NeverCancel:
+		spec.ctx, spec.cancel = ctx, func() {}
 	default:
 		spec.ctx, spec.cancel = context.WithCancel(ctx)
 	}
